@@ -362,7 +362,7 @@ def ReadsBack (ext : Ext) : PyScalar → Prop
 
 /-- **set_value then get_value.**  On a node with a core tag, `set_value(v)` followed by
 `get_value()` returns `v`, and `is_scalar(type(v))` holds. -/
-theorem C14_set_get (ext : Ext) (n : Node) (v : PyScalar) (hcore : n.tag.startsWith corePrefix = true)
+theorem C14_set_get (ext : Ext) (n : Node) (v : PyScalar) (hcore : hasPrefix corePrefix n.tag = true)
     (hrb : ReadsBack ext v) :
     getValue ext (setValue n v) = .ok v ∧ isScalar (setValue n v) (typOf v) = .ok true := by
   cases v with
